@@ -508,6 +508,44 @@ fn run_op(op: i64, a: &[i64]) -> Result<Vec<i64>, Trap> {
                 x += F2Dot14::from_bits(a[1] as i16);
                 vec![x.to_bits() as i64]
             }
+            50 => {
+                let d = read_fonts::tables::gvar::GlyphDelta { position: 0, x_delta: i(0), y_delta: i(1) };
+                let p = d.apply_scalar::<Fixed>(fx(2));
+                vec![p.x.to_bits() as i64, p.y.to_bits() as i64]
+            }
+            51 => {
+                let d = read_fonts::tables::cvar::CvtDelta { position: 0, value: i(0) };
+                vec![d.apply_scalar(fx(1)).to_bits() as i64]
+            }
+            52 => {
+                let mut b = vec![];
+                be16(&mut b, 12);
+                be16(&mut b, 0);
+                be32(&mut b, 28);
+                be32(&mut b, 0);
+                be32(&mut b, 1);
+                be32(&mut b, a[1] as u32);
+                be32(&mut b, a[2] as u32);
+                be32(&mut b, a[3] as u32);
+                let t = read_fonts::tables::cmap::Cmap12::read(FontData::new(&b)).unwrap();
+                match t.map_codepoint(a[0] as u32) {
+                    Some(g) => vec![g.to_u32() as i64],
+                    None => vec![-1],
+                }
+            }
+            53 => {
+                let (n, m, gid) = (a[0] as usize, a[1] as usize, a[2] as u32);
+                let mut b = vec![];
+                for k in 0..n {
+                    be16(&mut b, k as u16);
+                    bei16(&mut b, k as i16);
+                }
+                for j in 0..m {
+                    bei16(&mut b, 1000 + j as i16);
+                }
+                let t = read_fonts::tables::hmtx::Hmtx::read(FontData::new(&b), n as u16, (n + m) as u16).unwrap();
+                vec![t.advance(GlyphId::new(gid)).map(|v| v as i64).unwrap_or(-1), t.side_bearing(GlyphId::new(gid)).map(|v| v as i64).unwrap_or(-1)]
+            }
             40 => {
                 use read_fonts::tables::glyf::PointCoord;
                 vec![<i32 as PointCoord>::midpoint(i(0), i(1)) as i64]
@@ -862,6 +900,20 @@ fn correspondence(st: &mut Stats, cw: &mut CaseWriter, rng: &mut Rng, thorough: 
             Ok(Ok(p)) => c.emit_res(12, vec![g, sel, d], Ok(vec![(p[0].0 as f64 * 64.0).round() as i64])),
             Ok(Err(_)) => {}
         }
+    }
+    // gvar / cvar delta * scalar, cmap12 single group, hmtx index arithmetic
+    for _ in 0..nr / 2 {
+        let d = |rng: &mut Rng| if rng.chance(1, 2) { *rng.pick(&[32767i64, -32768, 0, 1, -1, 65535, -65536, mx, mn]) } else { rng.range(-40000, 40000) };
+        let sc = if rng.chance(1, 2) { *rng.pick(&[65536i64, -65536, 32768, 0, 1, mx, mn, 16384]) } else { rng.range(-70000, 70000) };
+        let v = vec![d(rng), d(rng), sc];
+        c.emit(50, v);
+        let v = vec![d(rng), sc];
+        c.emit(51, v);
+        let u = |rng: &mut Rng| if rng.chance(1, 2) { *rng.pick(&[0i64, 1, 0xFFFF, 0x10000, 0x10FFFF, 0xFFFFFFFF, 0xFFFFFFFE, 0x7FFFFFFF, 0x80000000]) } else { rng.range(0, 300) };
+        let v = vec![u(rng), u(rng), u(rng), u(rng)];
+        c.emit(52, v);
+        let v = vec![rng.range(0, 4), rng.range(0, 4), if rng.chance(1, 4) { *rng.pick(&[65535i64, 0xFFFFFF, 0xFFFFFFFF, 100]) } else { rng.range(0, 9) }];
+        c.emit(53, v);
     }
     // += / -= of the fixed types
     for op in [33i64, 34] {
@@ -2756,6 +2808,7 @@ fn census() -> serde_json::Value {
         "sites_translated_unchecked": translated_unchecked,
         "sites_translated_explicit": translated_explicit,
         "coverage_of_unchecked_sites_percent": (translated_unchecked as f64 * 1000.0 / found.max(1) as f64).round() / 10.0,
+        "coverage_of_all_arith_sites_percent": ((translated_unchecked + translated_explicit) as f64 * 1000.0 / (found + tot.explicit).max(1) as f64).round() / 10.0,
     })
 }
 
